@@ -14,6 +14,7 @@ import (
 	"os"
 	"sort"
 	"strings"
+	"sync"
 	"time"
 
 	"github.com/tucats/ego/internal/verifrt/egobatch"
@@ -32,6 +33,7 @@ type Witness struct {
 	Mode      string `json:"mode"`
 	Formatted string `json:"formatted,omitempty"`
 	Detail    string `json:"detail"`
+	Cell      string `json:"cell"`
 	Confirmed string `json:"confirmed_by_fresh_ego_process"`
 	File      string `json:"file,omitempty"`
 }
@@ -190,7 +192,7 @@ func analyse(r *report.R, scratch string, items []item, res []Res) {
 
 			if strings.Contains(res[i].Died, "run-formatted") {
 				// the formatted program does not terminate inside the instruction budget, the original did
-				f := Finding{Kind: "changes-program", Mode: "program", Detail: "the formatted text does not terminate: " + res[i].Died}
+				f := diedFinding(res[i])
 				cells["changes-program:"+it.cell] = append(cells["changes-program:"+it.cell], cand{i, f})
 			} else {
 				r.Capped("a judging worker did not survive " + it.name + ": " + res[i].Died)
@@ -245,6 +247,11 @@ func analyse(r *report.R, scratch string, items []item, res []Res) {
 			}
 
 			key := f.Kind + ":" + it.cell
+			if strings.HasPrefix(it.family, "comment") && it.family != "comment0" {
+				// comments can stand anywhere: the symptom names the cell
+				key = f.Kind + ":comment:" + f.Diag
+			}
+
 			cells[key] = append(cells[key], cand{i, f})
 		}
 	}
@@ -287,7 +294,20 @@ func analyse(r *report.R, scratch string, items []item, res []Res) {
 
 	sort.Strings(keys)
 
-	for _, key := range keys {
+	// confirm the smallest witnesses of every cell in fresh processes of the
+	// real binary (cells in parallel, reported in key order)
+	type confirmed struct {
+		ok  bool
+		c   cand
+		how string
+		log []string
+	}
+
+	results := make([]confirmed, len(keys))
+
+	var wg sync.WaitGroup
+
+	for k, key := range keys {
 		cs := cells[key]
 
 		sort.SliceStable(cs, func(a, b int) bool {
@@ -298,44 +318,56 @@ func analyse(r *report.R, scratch string, items []item, res []Res) {
 			return items[cs[a].i].name < items[cs[b].i].name
 		})
 
-		// confirm the smallest witnesses in fresh processes of the real binary
-		reported := false
-		tried := 0
+		wg.Add(1)
 
-		for _, c := range cs {
-			if tried >= 3 {
-				break
+		go func(k int, key string, cs []cand) {
+			defer wg.Done()
+
+			for t, c := range cs {
+				if t >= 3 {
+					break
+				}
+
+				it := items[c.i]
+				ok, how := confirm(scratch, it.src, it.frag, c.f)
+
+				results[k].log = append(results[k].log, fmt.Sprintf("c05: cell %s n=%d witness %s confirmed=%v (%s)\n      %s", key, len(cs), it.name, ok, how, c.f.Detail))
+
+				if ok {
+					results[k].ok, results[k].c, results[k].how = true, c, how
+
+					return
+				}
 			}
+		}(k, key, cs)
+	}
 
-			tried++
+	wg.Wait()
 
-			it := items[c.i]
-			ok, how := confirm(scratch, it.src, it.frag, c.f)
+	for k, key := range keys {
+		cs := cells[key]
+		res := results[k]
 
-			if os.Getenv("VERIF_C05_CENSUS") != "" {
-				fmt.Printf("c05: cell %s n=%d witness %s confirmed=%v (%s)\n      %s\n", key, len(cs), it.name, ok, how, c.f.Detail)
+		if os.Getenv("VERIF_C05_CENSUS") != "" {
+			for _, l := range res.log {
+				fmt.Println(l)
 			}
-
-			if !ok {
-				r.Add("witnesses_not_reproduced_by_fresh_process", 1)
-
-				continue
-			}
-
-			w := Witness{Family: it.family, Name: it.name, Fragment: it.frag, Source: it.src, Kind: c.f.Kind, Mode: c.f.Mode,
-				Formatted: c.f.Fmt, Detail: c.f.Detail, Confirmed: how}
-
-			for range cs {
-				r.Violation(key, it.size, w, it.name+": "+c.f.Detail)
-			}
-
-			reported = true
-
-			break
 		}
 
-		if !reported {
+		r.Add("witnesses_not_reproduced_by_fresh_process", int64(len(res.log)-map[bool]int{true: 1}[res.ok]))
+
+		if !res.ok {
 			fmt.Printf("c05: cell %s (%d texts) not reproduced by fresh ego processes, not reported\n", key, len(cs))
+
+			continue
+		}
+
+		it := items[res.c.i]
+		w := Witness{Family: it.family, Name: it.name, Fragment: it.frag, Source: it.src, Kind: res.c.f.Kind, Mode: res.c.f.Mode,
+			Formatted: res.c.f.Fmt, Detail: res.c.f.Detail, Confirmed: res.how, Cell: key}
+
+		for range cs {
+			r.Violation(key, it.size, w, it.name+": "+res.c.f.Detail)
 		}
 	}
 
@@ -376,4 +408,11 @@ func bench() {
 	fmt.Println(firstDiff(src, f))
 	fmt.Println(f)
 	os.Exit(2)
+}
+
+// diedFinding: the original ended, the formatted text ran past the
+// instruction budget of the judging worker.
+func diedFinding(res Res) Finding {
+	return Finding{Kind: "changes-program", Mode: res.DiedMode, Fmt: res.DiedFmt, Diag: "does-not-terminate",
+		Detail: "the original ends, the formatted text does not terminate: " + res.Died}
 }
